@@ -193,6 +193,10 @@ func (t *domainRoutingTracker) syncOwner(
 		}
 	}
 
+	if verifEnabled {
+		verifObserveDomainRoutingSync(ownerKey, keysToUpdate, valuesToUpdate, keysToDelete)
+	}
+
 	if m != nil {
 		if len(keysToUpdate) > 0 {
 			if _, err := BpfMapBatchUpdate(m, keysToUpdate, valuesToUpdate, &ebpf.BatchOptions{
